@@ -836,7 +836,9 @@ class C14(TextPlan):
         # texts on which the expander ends without having sent anything, or early: what the reader of its
         # channel gets must not depend on how far the goroutine has got (D31)
         early = [b'i for 2\ndat i\n', b'i for 2\ndat i', b'for 3', b'x for 2\n', b'for 1\nfor 1\ndat 0\nrof\n', b'a equ 1\nfor a\ndat 0\n',
-                 b'dat 0\nfor 2\n', b'|', b'for 2\ndat 0 |\nrof\n', b'for 0\nrof', b'for 2\nrof\n', b'lbl for 1\n;c\n']
+                 b'dat 0\nfor 2\n', b'|', b'for 2\ndat 0 |\nrof\n', b'for 0\nrof', b'for 2\nrof\n', b'lbl for 1\n;c\n',
+                 # ... and texts on which the lexer ends in unusual places (the DOS end-of-file mark, NUL, an error token)
+                 b'mov 0, 1\nend\n\x1a', b'\x1a', b'dat 0\n\x1a\ndat 1\n', b'dat 0 \x1a', b'x equ 1\x1a\ndat x\n', b'MOV.I 0, 1\n\x1a\n', b'dat 0\n\x00dat 1\n', b'dat 0\n=\ndat 1\n']
         for t in early:
             for md in (2, 0):
                 lines.append([14, rng.choice([8, 16, 32]), 24, 10] + [md, 8000, 8000, 80000, 8000, 8000, 100, 100] + list(t))
